@@ -6,6 +6,7 @@ CONSTANTS
   WireMode = "ab"
   InitMode = "empty"
   SortPI = TRUE
+  TailIgnored = TRUE
 INVARIANTS
   RejectsTrailing
 CHECK_DEADLOCK FALSE
